@@ -622,3 +622,68 @@ func diffClusters(a, b *state.Cluster, pools []string) []stateDiff {
 }
 
 var _ = v1alpha1.Group
+
+// StateDifferential compares the incremental cluster state of a running profile with a fresh
+// state.Cluster built by the real informers from the API objects. The caller must have settled the
+// system. Deletion marks made by the disruption queue are not part of the API objects, so nodes
+// that are marked in the live state are skipped.
+func StateDifferential(e *Env, pools []string, where string) {
+	s := e.S
+	ctx := s.EnvCtx()
+	ref := state.NewCluster(s.Clock, e.C, e.CP)
+	refCost := cost.NewClusterCost(ctx, e.CP, e.C)
+	ncCtl := informer.NewNodeClaimController(e.C, e.CP, ref, refCost)
+	nodeCtl := informer.NewNodeController(e.C, ref)
+	podCtl := informer.NewPodController(e.C, ref)
+	dsCtl := informer.NewDaemonSetController(e.C, ref)
+	for pass := 0; pass < 2; pass++ {
+		for _, o := range s.store.List(gvkNodeClaim) {
+			_, _ = ncCtl.Reconcile(ctx, reconcile.Request{NamespacedName: keyOf(o)})
+		}
+		for _, o := range s.store.List(gvkNode) {
+			_, _ = nodeCtl.Reconcile(ctx, reconcile.Request{NamespacedName: keyOf(o)})
+		}
+		for _, o := range s.store.List(gvkPod) {
+			_, _ = podCtl.Reconcile(ctx, reconcile.Request{NamespacedName: keyOf(o)})
+		}
+		for _, o := range s.store.List(gvkDS) {
+			_, _ = dsCtl.Reconcile(ctx, reconcile.Request{NamespacedName: keyOf(o)})
+		}
+	}
+	marked := false
+	for n := range e.Cluster.Nodes() {
+		if n.MarkedForDeletion() && !n.Deleted() {
+			marked = true
+		}
+	}
+	if marked {
+		s.Stat("c11.live.skipped-marked")
+		return
+	}
+	s.Probe("c11-live-differential")
+	for _, d := range diffClusters(e.Cluster, ref, pools) {
+		s.Violate("C11", "state-differential/"+d.class, "%s: incremental cluster state differs from fresh recomputation: %s", where, d.text)
+	}
+}
+
+// SettleForDifferential brings the system to a quiescent point without letting periodic timers run.
+func SettleForDifferential(s *Sim) bool {
+	s.SettleMode = true
+	ok := s.Settle(4000)
+	for i := 0; i < 2 && ok; i++ {
+		if s.FlushRetries() == 0 {
+			break
+		}
+		ok = s.Settle(4000)
+	}
+	s.SettleMode = false
+	if !ok {
+		return false
+	}
+	for _, t := range s.PendingRetries() {
+		if strings.HasPrefix(t.Name, "retry state.") {
+			return false // a state informer is still backing off: an update is in flight
+		}
+	}
+	return true
+}
